@@ -122,7 +122,18 @@ struct XCompare : Engine {
             for (int cs = 0; cs < 2; cs++) { if (LIB(cJSON_Compare(nullptr, nullptr, cs))) V("null-compares-equal", "Compare(NULL, NULL) returned true"); if (LIB(cJSON_Compare(&invalid_node, &invalid_node, cs))) V("invalid-compares-equal", "Compare(invalid, invalid) returned true for the same node"); }
             cJSON weird; memset(&weird, 0, sizeof weird); weird.type = cJSON_Number | cJSON_String;
             if (LIB(cJSON_Compare(&weird, &weird, 1))) V("invalid-compares-equal", "node with two type bits compares equal to itself");
-            ctr().calls += 5; ctr().compared++;
+            // string / raw nodes without a value are invalid and never equal, not even to each other
+            { cJSON* n1 = LIB(cJSON_CreateStringReference(nullptr)); cJSON* n2 = LIB(cJSON_CreateStringReference(nullptr)); cJSON* ok = LIB(cJSON_CreateString(""));
+              for (int cs = 0; cs < 2; cs++) { if (LIB(cJSON_Compare(n1, n2, cs)) || LIB(cJSON_Compare(n1, ok, cs)) || LIB(cJSON_Compare(ok, n2, cs))) V("invalid-compares-equal", "string node with NULL valuestring compares equal");
+                  cJSON* a1 = LIB(cJSON_CreateArray()); cJSON* a2 = LIB(cJSON_CreateArray()); LIBV(cJSON_AddItemReferenceToArray(a1, n1)); LIBV(cJSON_AddItemReferenceToArray(a2, n2)); if (LIB(cJSON_Compare(a1, a2, cs))) V("invalid-compares-equal", "arrays holding string nodes with NULL valuestring compare equal"); LIBV(cJSON_Delete(a1)); LIBV(cJSON_Delete(a2)); }
+              LIBV(cJSON_Delete(n1)); LIBV(cJSON_Delete(n2)); LIBV(cJSON_Delete(ok)); }
+            // trees using every nesting level the parser accepts
+            for (int shape = 0; shape < 2; shape++) { std::string t; const int d = CJSON_NESTING_LIMIT; for (int i = 0; i < d; i++) t += shape ? "{\"k\":" : "["; t += "7"; for (int i = 0; i < d; i++) t += shape ? "}" : "]"; std::string t2 = t; t2[t2.find('7')] = '8';
+                cJSON* x = LIB(cJSON_Parse(t.c_str())); cJSON* y = LIB(cJSON_Parse(t.c_str())); cJSON* z = LIB(cJSON_Parse(t2.c_str()));
+                if (!x || !y || !z) V("deep-parse-failed", "cannot parse a text nested exactly CJSON_NESTING_LIMIT deep");
+                else for (int cs = 0; cs < 2; cs++) { if (!LIB(cJSON_Compare(x, y, cs)) || !LIB(cJSON_Compare(y, x, cs))) V("equal-values-compare-unequal", "two equal trees nested CJSON_NESTING_LIMIT deep compare unequal"); if (LIB(cJSON_Compare(x, z, cs))) V("different-values-compare-equal", "deep trees differing in the innermost leaf compare equal"); }
+                if (x) LIBV(cJSON_Delete(x)); if (y) LIBV(cJSON_Delete(y)); if (z) LIBV(cJSON_Delete(z)); }
+            ctr().calls += 25; ctr().compared++;
         }
     }
     void before_stage(const std::string& stage) override { if (stage.find("replay:") == 0) { cfg.opt["stage"] = stage.substr(7); built_for.clear(); build(stage.substr(7)); } }
